@@ -126,6 +126,42 @@ func c02Scenarios(tier string) []*Scenario {
 			}
 		}
 	}
+	// max_restarts changed by a live update (nothing else changes): the new limit applies from then on
+	for _, pol := range []string{"always", "on_failure"} {
+		pol := pol
+		const oldMax, newMax = 5, 1
+		mkYAML := func(mx int) string {
+			return projectYAML(nil, PC{Name: "a", Restart: pol, Backoff: 1, Max: mx}, PC{Name: "x"})
+		}
+		sc := &Scenario{
+			ID:         fmt.Sprintf("c02-update-max-restarts-%s", pol),
+			YAML:       mkYAML(oldMax),
+			Procs:      map[string]*ProcScript{"a": {Launches: exits(1)}, "x": {}},
+			K:          k,
+			TickBudget: 8,
+			Horizon:    30 * time.Second,
+		}
+		launched := func(w *World) bool { return w.launches["a#0"] > 0 }
+		sc.API = [][]APICall{{{Op: "update", YAML: mkYAML(newMax), When: launched}}}
+		sc.Check = func(w *World) []Violation {
+			tr := w.pre()
+			ret := findEvent(tr, 0, func(e Event) bool { return e.Kind == "api-ret" && !e.Flag })
+			if ret < 0 {
+				return nil
+			}
+			n := 0
+			for i := ret; i < len(tr); i++ {
+				if tr[i].Kind == "start" && tr[i].Proc == "a#0" {
+					n++
+				}
+			}
+			if n > 1+newMax {
+				return []Violation{viol("C02", "max-restarts-exceeded:after-update", "max_restarts was updated from %d to %d; %d commands were launched after the update had been served (at most %d: the new instance and %d relaunch)", oldMax, newMax, n, 1+newMax, newMax)}
+			}
+			return nil
+		}
+		scs = append(scs, sc)
+	}
 	// a restart request that arrives while the process waits out its back-off: the new command is still not
 	// launched sooner than backoff_seconds after the exit of the old one
 	for _, pol := range []string{"always", "on_failure"} {
